@@ -70,7 +70,7 @@ def check_case(drv, rng, stats, given=None):
     else:
         task = rng.choice(["classification", "classification", "regression"])
         X, y, quant, qual = selgen.gen_frame(rng, task)
-        cfg = selgen.gen_config(rng, task, quant, qual)
+        cfg = selgen.gen_config(rng, task, quant, qual, has_inf=bool(quant) and bool(np.isinf(X[quant].to_numpy(dtype=float)).any()))
     Xb, yb = X.copy(deep=True), y.copy(deep=True)
     fails = []
     case = {"task": task, "cfg": {k: v for k, v in cfg.items() if k != "kw"}, "X": {c: [None if (isinstance(v, float) and math.isnan(v)) else v for v in X[c].tolist()] for c in X.columns},
